@@ -362,6 +362,19 @@ def propagate_new_temporaries(mod, pinned):
                         child = a
                     return False
                 in_loop = any(_reevaluated(l) for l in loads)
+                # a use inside a loop that does not contain the definition sees the value computed *before* the loop:
+                # the inputs must not be rebound anywhere in such a loop
+                def _loop_rebinds(l):
+                    for a in _ancestors(l):
+                        if a is fn:
+                            break
+                        if isinstance(a, (ast.While, ast.For, ast.AsyncFor)) and not any(a is b for b in _ancestors(st)):
+                            for x in ast.walk(a):
+                                if isinstance(x, ast.Name) and isinstance(x.ctx, (ast.Store, ast.Del)) and x.id in inputs:
+                                    return True
+                    return False
+                if any(_loop_rebinds(l) for l in loads):
+                    continue
                 if has_call and in_loop:
                     continue
                 nonbenign = any(isinstance(x, ast.Call) and not _benign_call(x) for x in ast.walk(rhs))
